@@ -64,7 +64,8 @@ def gen_case(rng, tier, i):
     if i % 6 == 5:
         nk = rng.randint(0, 4)
         decl = {f"k{j}": rng.choice(TYPES) for j in range(nk)}
-        shape = rng.choice(["ok", "ok", "missing", "extra", "wrongtype", "nondict", "subclass", "none_value", "renamed", "empty"])
+        shape = rng.choice(["ok", "ok", "missing", "extra", "wrongtype", "nondict", "subclass", "none_value", "renamed", "empty",
+                            "reordered", "reordered_swapped"])
         return {"fam": "meta", "decl": decl, "shape": shape, "check": rng.random() < 0.7, "timed": rng.random() < 0.5,
                 "ts": rng.choice([0, 1.5, ["dur", 2.0, "h"], "bad", None])}
     nt, nl = rng.randint(2, 4), rng.randint(2, 5)
@@ -329,6 +330,13 @@ def _meta(case, ctx):
         payload[keys[0] + "_x"] = payload.pop(keys[0])
     elif shape == "empty":
         payload = {}
+    elif shape == "reordered":
+        # the same conforming payload with its keys inserted in reverse order: a dict is a dict
+        payload = {k: payload[k] for k in reversed(keys)}
+    elif shape == "reordered_swapped":
+        # keys in reverse order, and the value at position i has the type declared at position i: conforming only by position
+        vals = [payload[k] for k in keys]
+        payload = {k: v for k, v in zip(reversed(keys), vals)}
     ts = _ts(case["ts"])
     ctx.count("metadata_attempts")
     created = None
@@ -337,6 +345,15 @@ def _meta(case, ctx):
     except Exception as e:
         ctx.count("metadata_refusals")
         ctx.seen("refusal_exception_types", type(e).__name__)
+    if created is None and shape == "reordered" and case["check"] and _conforms(decl, payload):
+        # key order is not part of a dict payload: refused here although the same payload in declaration order is accepted?
+        try:
+            ordered = {k: payload[k] for k in keys}
+            TimedEvent(ts, et, ordered, True) if case["timed"] else Event(et, ordered, True)
+            ctx.viol("conforming-payload-refused-because-of-its-key-order", {"decl": decl, "payload": repr(payload)[:300]})
+            return
+        except Exception:
+            pass
     if created is not None:
         ctx.count("metadata_created")
         if case["check"] and not _conforms(decl, payload):
